@@ -3,6 +3,7 @@ package simkit
 import (
 	"context"
 	"fmt"
+	"os"
 	"runtime/debug"
 	"sort"
 	"strings"
@@ -19,6 +20,8 @@ type Violation struct {
 	Signature string `json:"signature"`
 	Detail    string `json:"detail"`
 }
+
+var debugSched = os.Getenv("VERIF_DEBUG_SCHED") != ""
 
 type parkedOp struct {
 	id string
@@ -313,6 +316,9 @@ func (s *Sim) Loop() {
 			continue
 		}
 		id := ids[choice]
+		if debugSched {
+			s.X.logEvent(s.Now(), fmt.Sprintf("  sched choice %d of %v", choice, ids))
+		}
 		if s.StepLatency > 0 {
 			time.Sleep(s.StepLatency)
 			synctest.Wait()
